@@ -355,7 +355,7 @@ package ops
 //@   loop 1 invariant nElem == prod(arr(shp), off(shp), $i)
 
 //@ func AnyToIntSlice
-//@   tags C07,C08,C09
+//@   tags C07,C08,C09,C11
 //@   ensures unsupported_refused: typeof(value) != tagof("[]int8") && typeof(value) != tagof("[]int16") && typeof(value) != tagof("[]int32") && typeof(value) != tagof("[]int64") ==> err != nil && result == nil
 //@   ensures int64s: typeof(value) == tagof("[]int64") ==> err == nil && len(result) == len(unbox(value, "[]int64")) && (result == nil || fresh(result)) &&
 //@          (forall k :: 0 <= k && k < len(result) ==> result[k] == unbox(value, "[]int64")[k])
